@@ -40,6 +40,7 @@ from explorerscript.ssb_converting.ssb_special_ops import (
     SsbLabelJump,
     SwitchStart,
     OPS_THAT_END_CONTROL_FLOW,
+    OP_JUMP,
     OP_SWITCH_DUNGEON_MODE,
 )
 from explorerscript.ssb_converting.util import Blk
@@ -129,6 +130,9 @@ class SwitchWriteHandler(AbstractWriteHandler):
                                 if not handler.last_handler_in_block.ended_on_jump and (
                                     root_op_before is None
                                     or root_op_before.op_code.name not in OPS_THAT_END_CONTROL_FLOW
+                                    # (a plain jump is only written by the label it leads to; when that label is the
+                                    # end of this switch, the break is that jump)
+                                    or root_op_before.op_code.name == OP_JUMP
                                 ):
                                     self.decompiler.write_stmnt("break;")
 
